@@ -116,4 +116,29 @@ def RawPayloadsOk (suites : List Suite) : Prop :=
 
 instance (suites : List Suite) : Decidable (RawPayloadsOk suites) := by unfold RawPayloadsOk; infer_instance
 
+/-- Which permutations also run against the grpc-go reference peers: never Connect; with the
+gRPC client only gRPC; gRPC-Web over HTTP/1.1 or HTTP/2 and everything else over HTTP/2 only;
+proto codec; identity or gzip; no TLS; no raw request with the gRPC client and no raw response
+with the gRPC server. -/
+def GrpcPeerApplicable (client server : Bool) (q : Perm) : Prop :=
+  q.p ≠ .connect ∧ (client = true → q.p = .grpc) ∧
+  (if q.p = .grpcWeb then (q.v = .v1 ∨ q.v = .v2) else q.v = .v2) ∧
+  q.c = .proto ∧ (q.z = .identity ∨ q.z = .gzip) ∧ q.serverCert = false ∧
+  (client = true → q.rawRequest = false) ∧ (server = true → q.rawResponse = false)
+
+instance (cl sv : Bool) (q : Perm) : Decidable (GrpcPeerApplicable cl sv q) := by
+  unfold GrpcPeerApplicable; infer_instance
+
+/-- names of the permutations run against the gRPC peers: the marker is inserted before the
+test's own name -/
+def markedNames (client server : Bool) (perms : List Perm) : List String :=
+  (perms.filter fun q => decide (GrpcPeerApplicable client server q)).map fun q =>
+    addMarker q.fullName q.simpleName client server
+
+/-- names `allPermutations(client, server)` must return -/
+def specAllNames (client server : Bool) (perms : List Perm) : List String :=
+  perms.map (·.fullName) ++ (if client then markedNames true false perms else []) ++
+  (if server then markedNames false true perms else []) ++
+  (if client && server then markedNames true true perms else [])
+
 end ConfModel.Library
